@@ -281,7 +281,11 @@ def profiles(rep, wd, st):
         accepted = not lowering_err and not (panicked and rc != 0 and "Lowering" in err)
         st.distinct.add(("profile", feat, sup, accepted))
         if panicked and not lowering_err:
-            continue  # backend crash after lowering: C15's business
+            # backend crash after lowering is C15's business - except that a crash inside the backend proves the gate let the shape through
+            if not sup and re.search(r"panicked at tool/src/", err):
+                rep.violation("C05|profile|%s|%s|unsupported-but-accepted|%s" % (b, feat, name), {"backend": b, "feature": feat, "source": src, "stderr": err[-600:]},
+                              "%s says it does not support %s but lowering accepts a %s shape (the backend then panics)" % (b, feat, feat))
+            continue
         if sup and lowering_err:
             rep.violation("C05|profile|%s|%s|supported-but-rejected|%s" % (b, feat, name), {"backend": b, "feature": feat, "source": src, "stderr": err[-800:]},
                           "%s says supports=%s but rejects a %s shape" % (b, feat, feat))
